@@ -304,4 +304,46 @@ example : ∃ A, as2pf 1 4 1 0.05 2.5 = .ok A ∧ 0.05 < A :=
   nlo_above_reference_backward 4 0.05 2.5 1 (by norm_num) (by norm_num) (by norm_num)
     (by norm_num) (by norm_num)
 
+/-! ### which integrator the loop is: the classical Runge–Kutta tableau and its order conditions -/
+
+/-- a general explicit 4-stage Runge–Kutta step for an autonomous equation a' = f(a): stage matrix `A` (strictly
+    lower triangular), weights `b` -/
+def rkStep (f : ℝ → ℝ) (a21 a31 a32 a41 a42 a43 b1 b2 b3 b4 : ℝ) (h a : ℝ) : ℝ :=
+  let k1 := f a
+  let k2 := f (a + h * (a21 * k1))
+  let k3 := f (a + h * (a31 * k1 + a32 * k2))
+  let k4 := f (a + h * (a41 * k1 + a42 * k2 + a43 * k3))
+  a + h * (b1 * k1 + b2 * k2 + b3 * k3 + b4 * k4)
+
+/-- the loop body of `as2pf` IS the classical Runge–Kutta method: stages at 0, ½, ½, 1 with the single sub-diagonal
+    (½, ½, 1) and weights (1/6, 1/3, 1/3, 1/6), applied to a' = β₀a² + β₁a³ -/
+theorem rk4Step_is_classical_tableau (nf h a : ℝ) :
+    rk4Step nf h a = rkStep (fun x => fbeta1 x nf) (1/2) 0 (1/2) 0 0 1 (1/6) (1/3) (1/3) (1/6) h a := by
+  simp only [rk4Step, rkStep, fbeta1]
+  ring
+
+/-- … and that tableau satisfies all eight order conditions of a fourth-order method (Butcher): with
+    c_i = Σ_j a_ij,  Σb = 1, Σbc = 1/2, Σbc² = 1/3, ΣbAc = 1/6, Σbc³ = 1/4, Σbc(Ac) = 1/8, ΣbAc² = 1/12, ΣbAAc = 1/24.
+    (That these conditions give a local error O(h⁵) is the classical theorem, not re-proved here; what they exclude is
+    checked below: equal weights ¼ fail the third condition.) -/
+theorem classical_tableau_order4 :
+    let a21 : ℚ := 1/2; let a31 : ℚ := 0; let a32 : ℚ := 1/2; let a41 : ℚ := 0; let a42 : ℚ := 0; let a43 : ℚ := 1
+    let b1 : ℚ := 1/6; let b2 : ℚ := 1/3; let b3 : ℚ := 1/3; let b4 : ℚ := 1/6
+    let c2 := a21; let c3 := a31 + a32; let c4 := a41 + a42 + a43
+    b1 + b2 + b3 + b4 = 1 ∧
+    b2 * c2 + b3 * c3 + b4 * c4 = 1/2 ∧
+    b2 * c2^2 + b3 * c3^2 + b4 * c4^2 = 1/3 ∧
+    b3 * (a32 * c2) + b4 * (a42 * c2 + a43 * c3) = 1/6 ∧
+    b2 * c2^3 + b3 * c3^3 + b4 * c4^3 = 1/4 ∧
+    b3 * c3 * (a32 * c2) + b4 * c4 * (a42 * c2 + a43 * c3) = 1/8 ∧
+    b3 * (a32 * c2^2) + b4 * (a42 * c2^2 + a43 * c3^2) = 1/12 ∧
+    b4 * (a43 * (a32 * c2)) = 1/24 := by
+  norm_num
+
+/-- the same stages with equal weights ¼ (a wrong integrator that passes the first-order and monotonicity theorems,
+    lean/Audit/C15_wrong.lean) violate the third-order condition Σ b c² = 1/3 -/
+theorem equal_weights_not_order3 :
+    ((1/4 : ℚ) * (1/2)^2 + (1/4) * (1/2)^2 + (1/4) * 1^2 ≠ 1/3) := by norm_num
+
+
 end Gep.R.C15
